@@ -601,12 +601,33 @@ structure JobPlan where
   symlinks : List (Str × Str)
   deriving Repr
 
-/-- `copy_input` (inputs given by URL: no local upload) -/
+/-- `urlparse(path).scheme in ('', 'file')`: a scheme is `[A-Za-z][A-Za-z0-9+.-]*` before the first `:` -/
+def isLocalInput (path : Str) : Bool :=
+  if ':' ∈ path then
+    let sch := path.takeWhile (· ≠ ':')
+    let valid := (match sch with | c :: _ => c.isAlpha | [] => false) && sch.all fun c => c.isAlphanum || c = '+' || c = '.' || c = '-'
+    if valid then sch.map Char.toLower == ['f', 'i', 'l', 'e'] else true
+  else true
+
+/-- where a local input is uploaded for one consuming job: `r._get_path(batch_remote_tmpdir + '/' + uuid.uuid4().hex[:8])`;
+the fresh 8-hex directory is written `@U` (the check canonicalises it the same way) -/
+def uploadDest (st : St) (remote : Str) (n : Nat) : Str := st.path (remote ++ ['/', '@', 'U']) (.file n)
+
+/-- `copy_input`: an input given by URL is downloaded from there; a local input is first uploaded (once per consuming job, to a
+fresh directory) and downloaded from that upload — in both cases to the resource's **own** local path -/
 def copyInput (st : St) (remote loc : Str) (n : Nat) : List (Str × Str) :=
   match st.file? n with
-  | some (.input _ ip _) => [(ip, st.path loc (.file n))]
+  | some (.input _ ip _) =>
+    if isLocalInput ip then [(uploadDest st remote n, st.path loc (.file n))] else [(ip, st.path loc (.file n))]
   | some (.jobFile _ _ _ _) => [(st.path remote (.file n), st.path loc (.file n))]
   | none => []
+
+/-- `local_input_file_transfers`, handed to `copy_from_dict` before the batch is submitted -/
+def localUploads (st : St) (remote : Str) : List (Str × Str) :=
+  ((List.range st.nJobs).map fun j => (st.job j).inputs.filterMap fun n =>
+    match st.file? n with
+    | some (.input _ ip _) => if isLocalInput ip then some (ip, uploadDest st remote n) else none
+    | _ => none).flatten
 
 /-- `copy_internal_output` -/
 def copyInternalOutput (st : St) (remote loc : Str) (n : Nat) : List (Str × Str) :=
